@@ -1,2 +1,4 @@
 import RoProps.C01
 import RoProps.C04
+import RoProps.C05a
+import RoProps.C05
